@@ -415,3 +415,54 @@ Proof.
     exists out. split; [exact Hrun|]. rewrite (Hout i Hi). fold P. f_equal.
     unfold resid_stat_x. apply (perfect_resid_stats k (mp_eff mp w 0) c d P HD HL Hmp Hk).
 Qed.
+
+(* ================================================================================================ *)
+(* (C') the residual family (rolling2_apply_idx) at every carrier: count and null below min_periods   *)
+(* ================================================================================================ *)
+Section ResidAnyCarrier.
+  Context {A : Type} `{NA : Num A} {T1 : Type} {D1 : IsNone T1 A} {T2 : Type} {D2 : IsNone T2 A}.
+
+  Lemma resid_emit_below k mp zs (s : @csum A) st e : c_n s < mp -> resid_emit (D1 := D1) (D2 := D2) k mp zs s st e = nnan.
+  Proof. intros H. unfold resid_emit. rewrite (proj2 (Nat.leb_gt _ _) H). reflexivity. Qed.
+
+  Theorem resid_below_min_periods_null k body (w : nat) (mp : option nat) (xs : list T1) (ys : list T2) :
+    1 <= w -> (body = false \/ length xs <= length ys) ->
+    exists out, ts_vregx_resid k body w mp xs ys = Done out /\ length out = common xs ys /\
+      forall i, i < common xs ys ->
+        npairs (D1 := D1) (D2 := D2) (combine (win w i xs) (win w i ys)) < mp_eff mp w 0 ->
+        nth_error out i = Some nnan.
+  Proof.
+    intros Hw Hb. rewrite resid_common by assumption.
+    destruct (firstn_common_lengths xs ys) as [L1 L2].
+    set (xs' := firstn (common xs ys) xs) in *. set (ys' := firstn (common xs ys) ys) in *.
+    unfold ts_vregx_resid. set (zs := combine xs' ys'). set (m := mp_eff mp w 0).
+    assert (Hzl : length zs = common xs ys) by (unfold zs; rewrite combine_length; lia).
+    change (resid_cb k m zs) with (idx_cb zs csum_pre csum_post (resid_emit k m zs)).
+    assert (Hgen : forall sf : nat -> option nat,
+               (forall j, S j < length zs -> sf j = start_of w j) ->
+               let out := run (idx_cb zs csum_pre csum_post (resid_emit k m zs)) csum0
+                              (mapi (fun i v => (sf i, i, v)) zs) in
+               length out = common xs ys /\
+               forall i, i < common xs ys ->
+                 npairs (D1 := D1) (D2 := D2) (combine (win w i xs) (win w i ys)) < m ->
+                 nth_error out i = Some nnan).
+    { intros sf H1 out. split; [unfold out; rewrite run_length, mapi_length; exact Hzl|].
+      intros i Hi Hn. rewrite <- Hzl in Hi.
+      destruct (@idx_sliding_emit _ _ _ zs csum_pre csum_post (resid_emit k m zs) csum0 cnt_abs
+                  cnt_abs_init cnt_abs_pre cnt_abs_post w Hw sf H1 i Hi) as (s & Habs & Hnth).
+      unfold out. rewrite Hnth. f_equal. apply resid_emit_below.
+      unfold cnt_abs in Habs. rewrite Habs. unfold zs. rewrite win_combine. unfold xs', ys'.
+      rewrite Hzl in Hi. rewrite !win_firstn by exact Hi. exact Hn. }
+    destruct body.
+    - unfold rolling2_apply_idx_to.
+      replace (length ys' <? length xs') with false by (symmetry; apply Nat.ltb_ge; lia).
+      fold zs. rewrite rolling_apply_idx_to_eq by exact Hw. unfold args_to_idx.
+      destruct (Hgen (start_of (Nat.min w (length zs)))) as [HL HO].
+      + intros j Hj. apply start_of_to_inner. exact Hj.
+      + eexists. split; [reflexivity|]. split; [exact HL|exact HO].
+    - rewrite rolling2_apply_idx_default_pos by exact Hw. fold zs. rewrite rolling_apply_idx_default_eq by exact Hw.
+      destruct (Hgen (start_of w)) as [HL HO].
+      + intros j Hj. reflexivity.
+      + eexists. split; [reflexivity|]. split; [exact HL|exact HO].
+  Qed.
+End ResidAnyCarrier.
